@@ -368,7 +368,7 @@ def run(ctx):
                               "a length read from the input (%s) is %s with plain arithmetic at line %s before any upper-bound gate: a hostile length overflows (debug: panic in the "
                               "add; release: wrap, then an out-of-range slice)" % (sorted(x[1].rsplit("::", 1)[-1] for x in wide), "added" if "Add" in st_[2]["op"] else "multiplied", st_[3]),
                               site=f0.loc(st_[3]))
-    rep.check(n_arith >= 5, "C13.R6", "unchecked-arith:sites", "%d additions/multiplications of declared lengths examined" % n_arith, "only %d sites examined" % n_arith, site="workspace")
+    rep.check(n_arith >= 1, "C13.R6", "unchecked-arith:sites", "%d additions/multiplications of declared lengths examined" % n_arith, "no addition of a declared length found (anchor)", site="workspace")
 
     # ---- R7 constant index into a collection built from the input
     rep.rule("C13.R7", "`v[k]` with a constant k on a Vec filled from the input is dominated by a non-emptiness gate on the Vec or on the declared count it was filled from")
